@@ -181,7 +181,11 @@ outer:
 				if sc.Model != nil {
 					sc.Model(step)
 				}
-				if obs != nil && obs.Panic != "" && sc.Monitor != nil {
+				// (one documented exception: lock.Middleware / confirm.Middleware load the user with
+				// LoadCurrentUserP, "panics if it cannot load the user" - a guard-route request whose
+				// user load was made to fail is expected to panic; what matters is that the handler did not run)
+				documented := obs != nil && obs.Req.Tag.Kind == "guard" && len(obs.FaultFired) > 0
+				if obs != nil && obs.Panic != "" && sc.Monitor != nil && !documented {
 					// a panic is never silently part of the state graph
 					step.Report(Violation{Rule: "panic", Attrs: firstLine(obs.Panic), Detail: obs.Panic})
 				}
